@@ -2,6 +2,7 @@ package ledger
 
 import (
 	"fmt"
+	"github.com/nspcc-dev/neo-go/pkg/core/interop/interopnames"
 	"sort"
 
 	"github.com/nspcc-dev/neo-go/pkg/core/block"
@@ -692,6 +693,40 @@ func (r *run) atomCaught(T *Node, signer neotest.SingleSigner, extra []*transact
 	}
 	xs := mkScript(calleeHash, calleeMethod, calleeArgs)
 	ys := mkScript(k1, "fail", []any{})
+	if !nested && ap.Pieces[0].A%6 == 5 {
+		// the failing callee is a dynamically loaded script (System.Runtime.LoadScript under a try block of the entry
+		// script): it calls a contract - one that notifies, or one that only reads - and throws; the twin's throws at once.
+		// A loaded script gets at most read-only flags, so whatever it managed to do leaves nothing behind once caught.
+		dyn := func(call int) []byte {
+			w := nio.NewBufBinWriter()
+			switch call {
+			case 1:
+				emit.AppCall(w.BinWriter, k1, "ev", callflag.All, val)
+			case 2:
+				emit.AppCall(w.BinWriter, k1, "get", callflag.All, key)
+				emit.Opcodes(w.BinWriter, opcode.DROP)
+			}
+			emit.String(w.BinWriter, "boom")
+			emit.Opcodes(w.BinWriter, opcode.THROW)
+			return w.Bytes()
+		}
+		entry := func(s []byte) []byte {
+			w := nio.NewBufBinWriter()
+			emit.AppCall(w.BinWriter, k0, "ev", callflag.All, []byte("before"))
+			// (the script to load is pushed before the try block - its one-byte offsets are short - and rotated to the top)
+			emit.Bytes(w.BinWriter, s)
+			body := nio.NewBufBinWriter()
+			emit.Opcodes(body.BinWriter, opcode.NEWARRAY0)
+			emit.Int(body.BinWriter, []int64{15, 15, 5, 4}[ap.Pieces[0].B%4])
+			emit.Opcodes(body.BinWriter, opcode.ROT)
+			emit.Syscall(body.BinWriter, interopnames.SystemRuntimeLoadScript)
+			emitTry(w.BinWriter, body.Bytes(), []byte{byte(opcode.DROP)}, nil)
+			emit.AppCall(w.BinWriter, k0, "ev", callflag.All, []byte("after"))
+			return w.Bytes()
+		}
+		xs, ys = entry(dyn(1+ap.Pieces[0].Y%2)), entry(dyn(0))
+		r.out.Faults["caught_exception/in-dynamic-script"]++
+	}
 	sys := int64(30_00000000)
 	r.prod.nonce++
 	x := r.rawTx(r.P, xs, signer, sys, atomNetFee, r.prod.nonce)
